@@ -102,8 +102,11 @@ def f_then_eof(g):
     return f
 
 
-def packet_faults(d, rnd, tier):
-    """Faults for one SSH-2 binary packet `d` (length | padlen | payload | padding)."""
+def packet_faults(d, rnd, tier, dense=True):
+    """Faults for one SSH-2 binary packet `d` (length | padlen | payload | padding).  Thorough tier: truncation / short payload
+    at *every* offset where `dense` (the handshake connection and the first probe connection), at the field boundaries elsewhere
+    (later probe connections repeat the same message shapes)."""
+    every = tier == 'thorough' and dense
     out = []
     n = len(d)
     plen = struct.unpack('>I', d[:4])[0]
@@ -114,7 +117,7 @@ def packet_faults(d, rnd, tier):
         out.append(('padlen=%d' % v, f_then_eof(f_patch(4, bytes([v & 0xff])))))
     # a correctly framed packet whose payload ends early (length, padding and alignment are consistent; fields are missing)
     payload = d[5:5 + (plen - pad - 1)]
-    cuts = sorted({1, 2, 17, 21, len(payload) // 2, len(payload) - 5, len(payload) - 1}) if tier == 'quick' else range(1, len(payload))
+    cuts = range(1, len(payload)) if every else sorted({1, 2, 17, 21, len(payload) // 2, len(payload) - 5, len(payload) - 1})
     for k in cuts:
         if 0 < k < len(payload):
             from harness import wire as _w
@@ -142,12 +145,12 @@ def packet_faults(d, rnd, tier):
                     continue
                 out.append(('strbyte@%d/%s=%s' % (o, where, label), f_patch(pos, bs)))
     ks = sorted({0, 1, 3, 4, 5, 6, 7, n // 2, n - 1} | ({o for o, _ in offs} | {o + 4 for o, _ in offs} if tier == 'thorough' else set()))
-    if tier == 'thorough':
+    if every:
         ks = range(0, n)
     for k in ks:
         if 0 <= k < n:
             out.append(('trunc@%d+eof' % k, f_trunc(k, fakenet.EOF)))
-            if k in (0, 5, n // 2, n - 1) or tier == 'thorough' and k % 16 == 0:
+            if k in (0, 5, n // 2, n - 1) or every and k % 16 == 0:
                 out.append(('trunc@%d+stall' % k, f_trunc(k, fakenet.STALL)))
     out.append(('random', f_random(rnd.randrange(1 << 30))))
     out.append(('random+eof', f_then_eof(f_random(rnd.randrange(1 << 30)))))
@@ -284,9 +287,9 @@ def build(tier, rnd):
             elif kind in ('eof', 'text'):
                 continue
             elif kind == 'pkm':
-                faults = ssh1_faults(data, rnd, tier) + [f for f in packet_faults(data, rnd, tier) if f[0] in ('eof', 'stall', 'reset', 'random', 'random+eof') or f[0].startswith('trunc@')]
+                faults = ssh1_faults(data, rnd, tier) + [f for f in packet_faults(data, rnd, tier, dense=(n <= 2)) if f[0] in ('eof', 'stall', 'reset', 'random', 'random+eof') or f[0].startswith('trunc@')]
             else:
-                faults = packet_faults(data, rnd, tier)
+                faults = packet_faults(data, rnd, tier, dense=(n <= 2))
             if tier == 'quick' and n > 6:
                 # later group-exchange connections repeat the same message shapes: sample them
                 faults = [f for j, f in enumerate(faults) if (j + n) % 4 == 0]
